@@ -917,38 +917,41 @@ class BackendZ3(Backend):
         if n > 1:
             solver.push()
 
-        for i in range(n):
-            self.solve_count += 1
-            if not z3_solver_sat(solver, extra_constraints, "batch_eval"):
-                break
-            model = solver.model()
+        try:
+            for i in range(n):
+                self.solve_count += 1
+                if not z3_solver_sat(solver, extra_constraints, "batch_eval"):
+                    break
+                model = solver.model()
 
-            # construct results
-            r = []
-            for expr in exprs:
-                if not isinstance(expr, numbers.Number | str | bool):
-                    v = self._primitive_from_model(model, expr)
-                    r.append(v)
-                else:
-                    r.append(expr)
+                # construct results
+                r = []
+                for expr in exprs:
+                    if not isinstance(expr, numbers.Number | str | bool):
+                        v = self._primitive_from_model(model, expr)
+                        r.append(v)
+                    else:
+                        r.append(expr)
 
-            # Append the solution to the result list
-            if model_callback is not None:
-                model_callback(self._generic_model(solver.model()))
-            result_values.append(tuple(r))
+                # Append the solution to the result list
+                if model_callback is not None:
+                    model_callback(self._generic_model(solver.model()))
+                result_values.append(tuple(r))
 
-            # Construct the extra constraint so we don't get the same result anymore
-            if i + 1 != n:
-                if len(exprs) == 1:
-                    solver.add(exprs[0] != r[0])
-                else:
-                    solver.add(
-                        self._op_raw_Not(self._op_raw_And(*[(ex == ex_v) for ex, ex_v in zip(exprs, r, strict=False)]))
-                    )
-                model = None
-
-        if n > 1:
-            solver.pop()
+                # Construct the extra constraint so we don't get the same result anymore
+                if i + 1 != n:
+                    if len(exprs) == 1:
+                        solver.add(exprs[0] != r[0])
+                    else:
+                        solver.add(
+                            self._op_raw_Not(
+                                self._op_raw_And(*[(ex == ex_v) for ex, ex_v in zip(exprs, r, strict=False)])
+                            )
+                        )
+                    model = None
+        finally:
+            if n > 1:
+                solver.pop()
 
         return result_values
 
